@@ -252,7 +252,8 @@ def handleRun (j : Json) : Except String Json := do
       | "panic" => .panic cerr []
       | "formatError" => .formatError bytes cerr []
       | _ => .error cerr []
-    let r := run cfg core w
+    let stdoutOk := !((j.getObjValAs? Bool "stdoutFull").toOption.getD false)
+    let r := runWithStdout stdoutOk cfg core w
     let writes := ([cfg.output, cfg.log].filter (· != "")).filter fun p => r.world.get p != w.get p
     pure (Json.mkObj [("args", "config"), ("input", cfg.input), ("output", cfg.output), ("log", cfg.log),
       ("exit", r.exit), ("stdout", strArr r.stdout), ("writes", strArr writes),
